@@ -2,28 +2,12 @@
 
 use crate::generate::*;
 use crate::term::*;
-use crate::{Args, guarded};
+use crate::{Args, guarded, open_out, read_lines};
 use apache_avro::Schema;
 use apache_avro::reader::datum::GenericDatumReader;
 use apache_avro::writer::datum::GenericDatumWriter;
 use serde_json::{Value as J, json};
-use std::io::{BufRead, Write};
-
-pub fn open_out(path: &str) -> Box<dyn Write> {
-    if path == "-" {
-        Box::new(std::io::BufWriter::new(std::io::stdout()))
-    } else {
-        Box::new(std::io::BufWriter::new(std::fs::File::create(path).expect("create out")))
-    }
-}
-
-pub fn read_lines(path: &str) -> Vec<String> {
-    let f = std::fs::File::open(path).unwrap_or_else(|e| {
-        eprintln!("cannot open {path}: {e}");
-        std::process::exit(2)
-    });
-    std::io::BufReader::new(f).lines().map(|l| l.unwrap()).filter(|l| !l.trim().is_empty()).collect()
-}
+use std::io::Write;
 
 /// `datum-gen --seed S --count N --depth D --out FILE`: random (schema, value) scenarios.
 pub fn cmd_gen(a: &Args) -> i32 {
